@@ -24,6 +24,9 @@ type columnPaginator[ResourceType, OptionsType any] struct {
 //nolint:unused
 func (o columnPaginator[ResourceType, OptionsType]) Paginate(sb *bun.SelectQuery) (*bun.SelectQuery, error) {
 
+	if o.query.Order == nil {
+		return nil, NewErrInvalidQuery("invalid cursor: missing order")
+	}
 	paginationColumn := o.fieldName
 	originalOrder := *o.query.Order
 
